@@ -82,6 +82,13 @@ pub fn run(mut run: Run) -> i32 {
     run.stage("pairs", n * n, |idx, acc| {
         check_pair(acc, idx, &shapes[idx / n], &shapes[idx % n], "");
     });
+    if !run.ctx.quick() {
+        let g4 = families(&super::c01::cfg_g4());
+        let n4 = g4.len();
+        run.stage("pairs-G4", n4 * n4, |idx, acc| {
+            check_pair(acc, idx, &g4[idx / n4], &g4[idx % n4], "[G4]");
+        });
+    }
     // inside-hole family: donuts on the doubled lattice with every doubled G3 shape
     let dbl = |p: IP| (2 * p.0, 2 * p.1);
     let donuts: Vec<Poly> = vec![
